@@ -13,7 +13,7 @@ import z3
 
 from . import mirparse as MP
 from .mirparse import Unsupported, find_top, matching_close, split_top
-from .values import (INT_TYPES, MOVED, Agg, B, CEnum, Cell, FnItem, I, Opaque, Ptr, Z, clone_value, unit)
+from .values import (INT_TYPES, MOVED, Agg, B, CEnum, Cell, Coro, FnItem, I, Opaque, Ptr, Z, clone_value, unit)
 
 
 class RustPanic(Exception):
@@ -199,6 +199,7 @@ class Program:
         self._files = {}
         self.defs = {}       # (selftype, trait|None, method) -> [fn name]
         self.closures = {}   # '{closure@...}' -> fn name
+        self.coro_bodies = {}  # ('fn', creating fn name) | ('block', file, line, col) -> resume fn name
         self.consts = {}     # last segment -> [names]
         self.enums = dict(BUILTIN_ENUMS)
         self.struct_fields = {}
@@ -263,6 +264,13 @@ class Program:
                 m = re.search(r"\(_1: (?:&mut |&)?(\{(?:closure|coroutine|async [^@]*)@[^}]*\})", fn.header)
                 if m:
                     self.closures[m.group(1)] = name
+                # coroutine resume functions: `_1: Pin<&mut {async fn body of F()}>` / `Pin<&mut {async block@file:L:C: L:C}>`
+                if "(_1: Pin<&mut {async fn body of " in fn.header:
+                    self.coro_bodies[("fn", re.sub(r"::\{closure#\d+\}$", "", name))] = name
+                else:
+                    mb = re.search(r"\(_1: Pin<&mut \{async (?:block|closure body)@([^:}]+):(\d+):(\d+): ", fn.header)
+                    if mb:
+                        self.coro_bodies[("block", mb.group(1), int(mb.group(2)), int(mb.group(3)))] = name
                 continue
             m = rx.search(name)
             segs = split_path(name)
@@ -328,6 +336,16 @@ class Program:
                 r = (max(idx) + 1, idx)
         self._clo_arity[cname] = r
         return r
+
+    def coroutine_body(self, cname, creator):
+        """resume function of the coroutine value `{coroutine@file:L:C: L:C (#0)}` created inside fn `creator`"""
+        b = self.coro_bodies.get(("fn", creator))
+        if b and b.startswith(creator + "::{closure#"):
+            return b
+        m = re.match(r"\{coroutine@([^:}]+):(\d+):(\d+): ", cname)
+        if m:
+            return self.coro_bodies.get(("block", m.group(1), int(m.group(2)), int(m.group(3))))
+        return None
 
     # -- lookups
     def find_def(self, selft, trait, method):
@@ -665,6 +683,12 @@ class Interp:
                 raise Unsupported("read of field of moved/uninitialised value")
             raise Unsupported(f"field projection on {type(v).__name__} {v!r}")
         if k == "d":
+            if isinstance(v, Coro) and st[1].startswith("variant#"):
+                # saved locals of a suspend point
+                sv = v.vars.get(st[1])
+                if sv is None:
+                    sv = v.vars[st[1]] = Agg("covariant", [])
+                return sv
             if isinstance(v, Agg) and v.variant is not None and v.variant != st[1] and not st[1].startswith("variant#"):
                 raise Unsupported(f"downcast to {st[1]} of {v.name}::{v.variant}")
             return v
@@ -692,6 +716,8 @@ class Interp:
             raise Unsupported("write to downcast")
         if isinstance(parent, Agg):
             idx = last[1]
+            if idx >= len(parent.fields) and parent.name == "covariant":
+                parent.fields.extend([MOVED] * (idx + 1 - len(parent.fields)))
             if idx >= len(parent.fields):
                 raise Unsupported(f"write field {idx} of {parent.name}")
             parent.fields[idx] = val
@@ -798,6 +824,10 @@ class Interp:
             return self.exec_fn(self.P.get_fn(cands[0]), [])
         if t.startswith("ZeroSized") or t.startswith("PhantomData"):
             return Agg("PhantomData", [])
+        m = re.fullmatch(r"([A-Za-z_][\w:]*)\s*\{\{?\s*\}\}?", t)
+        if m:
+            # value of a field-less struct: `NoClock {  }`
+            return Agg(base_type_name(m.group(1)), [])
         # enum variant constants such as `const std::cmp::Ordering::Less` are printed as aggregates, not consts
         return FnItem(t)
 
@@ -826,7 +856,8 @@ class Interp:
             return self.eval_operand(frame, rv[1])
         if k in ("ref", "rawref"):
             cell, path = self.place_loc(frame, rv[1])
-            return Ptr(cell, [s for s in path if s[0] != "d"], "ref" if k == "ref" else "raw")
+            # enum downcasts are transparent; the suspend-point variants of a coroutine are separate storage
+            return Ptr(cell, [s for s in path if s[0] != "d" or s[1].startswith("variant#")], "ref" if k == "ref" else "raw")
         if k == "aggregate":
             _, kind, name, ops, names = rv
             vals = [self.eval_operand(frame, o) for o in ops]
@@ -850,6 +881,8 @@ class Interp:
                         if cellv is None or cellv.val is MOVED or (want and have and _norm_ty(want) != _norm_ty(have)):
                             raise Unsupported(f"cannot recover capture {kf} of {name} (local _{loc}: {have} vs {want})")
                         vals.append(cellv.val)
+                if name.startswith("{coroutine@"):
+                    return Coro(name, vals, meta=names, body=self.P.coroutine_body(name, frame.fn.name))
                 return Agg(name, vals, meta=names)
             tn, var = self.adt_name(name)
             if var is not None and not vals and not self.P.enums.get(tn, {}).get(var) is None and _fieldless(self.P.enums.get(tn)):
@@ -881,6 +914,8 @@ class Interp:
         if isinstance(v, CEnum):
             # the discriminant has the enum's own representation type (i8 for cmp::Ordering: MIR prints -1 as 255)
             return v.disc
+        if isinstance(v, Coro):
+            return I(v.state, "u32")
         if isinstance(v, Agg):
             if v.variant is None:
                 return I(0, "isize")
@@ -1005,6 +1040,14 @@ class Interp:
             if w < v.width:
                 return I(z3.Extract(w - 1, 0, v.v), ty)
             return I(z3.SignExt(w - v.width, v.v) if v.signed else z3.ZeroExt(w - v.width, v.v), ty)
+        if kind.startswith("PointerExposeProvenance") and isinstance(v, Ptr) and ty == "usize":
+            # address of an allocation: a distinct non-zero number per allocation (numbered in first-use order, which is
+            # deterministic on a path); only (in)equality of addresses is meaningful
+            ids = self.env.setdefault("ptr_ids", {})
+            k = id(v.cell)
+            if k not in ids:
+                ids[k] = 0x10000 * (len(ids) + 1)
+            return I(ids[k], "usize")
         if kind.startswith("Subtype"):
             return v  # subtyping coercion (lifetimes only): identity
         if kind.startswith(("PtrToPtr", "PointerCoercion", "Transmute", "FnPtrToPtr")):
@@ -1033,6 +1076,21 @@ class Interp:
             elif v.kind == "arc":
                 self.models.drop_arc(self, v)
             return
+        if isinstance(v, Coro):
+            if self.models.drop_agg(self, v):
+                return
+            if v.state == 0:
+                for f in v.fields:
+                    self.drop_value(f, depth + 1)
+            elif v.state >= 3:
+                # a suspended coroutine is being cancelled: its live saved locals are dropped
+                h = getattr(self.models, "drop_suspended", None)
+                if not h or not h(self, v):
+                    for sv in v.vars.values():
+                        for f in sv.fields:
+                            self.drop_value(f, depth + 1)
+            v.state = 1
+            return
         if isinstance(v, Agg):
             if self.models.drop_agg(self, v):
                 return
@@ -1060,6 +1118,9 @@ class Interp:
         if isinstance(v, Opaque):
             return v.tag
         if isinstance(v, FnItem):
+            last = base_type_name(v.name)
+            if last[:1].isupper() and "(" not in v.name:
+                return last   # value of a unit struct (printed like a constant path)
             return "fn"
         return None
 
@@ -1071,6 +1132,26 @@ class Interp:
             if h:
                 self.stats.models[nm] += 1
                 return h(self, cal, args)
+        # 1b. coroutines: `<T as Future>::poll` on a coroutine value runs its resume function
+        if cal.kind == "q" and cal.trait and args:
+            tb = base_type_name(cal.trait)
+            if tb == "IntoFuture" and cal.method == "into_future":
+                return args[0]
+            if tb == "IntoIterator" and cal.method == "into_iter" and isinstance(args[0], Agg) and self.P.find_def(args[0].name, "Iterator", "next"):
+                return args[0]   # blanket impl for iterators defined in the crate
+            if tb == "Future" and cal.method == "poll":
+                ptr, tv = self.future_target(args[0])
+                if isinstance(tv, Coro):
+                    return self.resume(tv, ptr, args[1])
+                if isinstance(tv, Opaque):
+                    h = self.models.lookup(f"<{tv.tag} as Future>::poll")
+                    if h:
+                        self.stats.models[f"<{tv.tag} as Future>::poll"] += 1
+                        return h(self, cal, args)
+                if isinstance(tv, Agg) and ptr is not None:
+                    d = self.P.find_def(tv.name, "Future", "poll")
+                    if d:
+                        return self.exec_fn(self.P.get_fn(self._pick(d, args)), [Agg("Pin", [Ptr(ptr.cell, ptr.path, "ref")]), args[1]])
         # 2. crate definitions by static name
         if cal.kind == "q" and cal.trait and (cal.selft.startswith("{closure@") or cal.selft.startswith("&{closure@")) \
                 and base_type_name(cal.trait) in ("Fn", "FnMut", "FnOnce"):
@@ -1086,6 +1167,11 @@ class Interp:
                 d = self.P.find_def(cal.selft, None, cal.method)
             if not d:
                 d = self.P.find_def(None, None, cal.method) if (cal.selft is None or cal.selft[:1].islower()) else None
+            if not d and cal.selft == "_":
+                # macro-generated anonymous-const impls (pin_project): `module::_::<impl Type<..>>::method`
+                m = re.search(r"::_::<impl ([A-Za-z_]\w*)", cal.raw)
+                if m:
+                    d = self.P.find_def(m.group(1), "#[pin_project]", cal.method)
             if d:
                 return self.exec_fn(self.P.get_fn(self._pick(d, args)), args)
         # 3. dynamic dispatch on the runtime type of the receiver
@@ -1108,6 +1194,12 @@ class Interp:
                                 v = inner
                     return v
                 args = [strip(a) for a in args]
+            if cal.trait and base_type_name(cal.trait) == "Clone" and cal.method == "clone" and isinstance(args[0], Ptr):
+                inner = self.read_loc(args[0].cell, args[0].path)
+                if isinstance(inner, Ptr) and inner.kind == "box":
+                    # `<Box<T> as Clone>::clone` (also Box<dyn Trait> through dyn_clone): clone the pointee, box the result
+                    r = self.call("<T as Clone>::clone", [Ptr(inner.cell, inner.path, "ref")])
+                    return self.alloc(r, tag="boxclone", kind="box")
             rt = self.runtime_type(args[0])
             if rt is not None:
                 tr = base_type_name(cal.trait) if cal.trait else None
@@ -1137,7 +1229,41 @@ class Interp:
                     d = self.P.find_def(rt2, tr, cal.method)
                     if d:
                         return self.exec_fn(self.P.get_fn(self._pick(d, args)), args)
-        raise Unsupported(f"callee {cal.raw}  (canonical {cal.names()}, runtime {self.runtime_type(args[0]) if args else None})")
+                if cal.trait:
+                    # provided (default) method of a crate trait: `path::Trait::method`
+                    tsegs = [strip_generics_seg(x) for x in split_path(cal.trait) if not x.startswith("<")]
+                    dn = "::".join(tsegs + [cal.method])
+                    if dn in self.P.funcs:
+                        return self.exec_fn(self.P.get_fn(dn), args)
+                    c = [n for n in self.P.funcs if n.endswith("::" + dn) or n == dn]
+                    if len(c) == 1:
+                        return self.exec_fn(self.P.get_fn(c[0]), args)
+        extra = ""
+        if cal.method == "poll" and args:
+            extra = f", future {self.future_target(args[0])[1]!r}"[:300]
+        raise Unsupported(f"callee {cal.raw}  (canonical {cal.names()}, runtime {self.runtime_type(args[0]) if args else None}{extra})")
+
+    def future_target(self, pinned):
+        """(pointer, value) of the future behind `Pin<&mut F>` / `Pin<Box<dyn Future>>` / `&mut Pin<..>` wrappers"""
+        v = pinned
+        ptr = None
+        for _ in range(8):
+            if isinstance(v, Agg) and v.name in ("Pin", "ManuallyDrop") and len(v.fields) == 1:
+                v = v.fields[0]
+            elif isinstance(v, Ptr):
+                ptr = v
+                v = self.read_loc(v.cell, v.path)
+            else:
+                break
+        return ptr, v
+
+    def resume(self, coro, ptr, cx):
+        """one `poll` of coroutine value `coro` located at `ptr`"""
+        if not coro.body:
+            raise Unsupported(f"resume function of {coro.name} not found")
+        if ptr is None:
+            ptr = Ptr(Cell(coro, tag="coro"), (), "ref")
+        return self.exec_fn(self.P.get_fn(coro.body), [Agg("Pin", [ptr]), cx])
 
     def _pick(self, names, args):
         if len(names) == 1:
@@ -1146,6 +1272,17 @@ class Interp:
         c = [n for n in names if self.P.get_fn(n).nargs == len(args)]
         if len(c) == 1:
             return c[0]
+        # same-named types of sibling modules (ports::output::broadcaster / ports::source::broadcaster): an unqualified
+        # type name refers to the one of the caller's own module tree
+        st = getattr(self, "fn_stack", None)
+        if c and st:
+            for caller in reversed(st):
+                seg = split_path(caller)[0]
+                cc = [n for n in c if split_path(n)[0] == seg]
+                if len(cc) == 1:
+                    return cc[0]
+                if cc:
+                    break
         raise Unsupported(f"ambiguous callee among {names}")
 
     def call_closure(self, clo, argtuple):
@@ -1186,7 +1323,8 @@ class Interp:
             raise Unsupported(f"arity mismatch calling {fn.name}: {len(args)} vs {fn.nargs}")
         self.call_depth += 1
         if self.call_depth > 200:
-            raise Unsupported("call depth")
+            self.call_depth -= 1
+            raise Unsupported("call depth: " + " <- ".join(reversed((getattr(self, "fn_stack", None) or [])[-4:])))
         hk = self.fn_hooks.get(fn.name) if self.fn_hooks else None
         if hk:
             hk(self, fn, args)
@@ -1195,9 +1333,14 @@ class Interp:
             frame.cell(idx).val = a
         if not fn.blocks:
             # single-line constant
+            self.call_depth -= 1
             raise Unsupported(f"empty body {fn.name}")
         bb = "bb0"
         visits = Counter()
+        fstack = getattr(self, "fn_stack", None)
+        if fstack is None:
+            fstack = self.fn_stack = []
+        fstack.append(fn.name)
         try:
             while True:
                 visits[bb] += 1
@@ -1259,7 +1402,10 @@ class Interp:
                     elif k == "resume":
                         raise Unsupported("resume")
                     elif k == "setdiscr":
-                        raise Unsupported("SetDiscriminant")
+                        tv = self.read_place(frame, st[1])
+                        if not isinstance(tv, Coro):
+                            raise Unsupported(f"SetDiscriminant on {tv!r}")
+                        tv.state = st[2]
                     elif k == "assume":
                         c = self.eval_operand(frame, st[1])
                         self.assume(c)
@@ -1270,6 +1416,7 @@ class Interp:
                 bb = nxt
         finally:
             self.call_depth -= 1
+            fstack.pop()
 
     def switch(self, v, cases, otherwise):
         if isinstance(v, B):
